@@ -416,6 +416,9 @@ class Interp:
         if k in ('CXXNullPtrLiteralExpr', 'GNUNullExpr'):
             val[i] = Ptr(None)
             return
+        if k == 'UnaryExprOrTypeTraitExpr' and e.get('v') is not None:
+            val[i] = e['v']
+            return
         if k in ('IntegerLiteral', 'CXXBoolLiteralExpr', 'CharacterLiteral'):
             val[i] = e.get('v') if k != 'CXXBoolLiteralExpr' else bool(e.get('v'))
             return
@@ -533,6 +536,9 @@ class Interp:
                     val[i] = Op()
                 return
             if op == '&':
+                if isinstance(s, Fnref):
+                    val[i] = s
+                    return
                 if isinstance(s, LV) and isinstance(s.box, list) and isinstance(s.load(), Rec):
                     val[i] = Ptr(s.load())
                 elif isinstance(s, LV) and isinstance(s.load(), Rec):
@@ -598,14 +604,30 @@ class Interp:
                 val[i] = b
                 return
             if op in ('&&', '||'):
-                # value of a short-circuit operator that is not itself a terminator: the operand evaluated last decides
-                bv = self.rv(b) if (isinstance(c[1], int) and c[1] in val) else None
-                av = self.rv(a)
-                ta = self.truth(av, fn, e)
-                if op == '&&':
-                    val[i] = ta and (self.truth(bv, fn, e) if bv is not None else False)
-                else:
-                    val[i] = ta or (self.truth(bv, fn, e) if bv is not None else False)
+                # value of a short-circuit operator that is not itself a terminator: its operands were evaluated (or skipped) in earlier
+                # blocks of this path; an operand that is not in `val` was short-circuited away
+                def logic(x):
+                    if isinstance(x, int):
+                        if x not in val:
+                            return None
+                        return self.truth(self.rv(val[x]), fn, e)
+                    if x.get('k') == 'BinaryOperator' and x.get('op') in ('&&', '||'):
+                        a_ = logic(x['c'][0])
+                        if a_ is None:
+                            return None
+                        if (x['op'] == '&&' and not a_) or (x['op'] == '||' and a_):
+                            return a_
+                        b_ = logic(x['c'][1])
+                        return a_ if b_ is None else b_
+                    if x.get('k') in ('ParenExpr', 'ImplicitCastExpr') and x.get('c'):
+                        return logic(x['c'][0])
+                    if x.get('v') is not None:
+                        return bool(x['v'])
+                    return None
+                r = logic(e)
+                if r is None:
+                    self.broken(fn, e, 'a logical expression whose operands were not evaluated on this path')
+                val[i] = r
                 return
             if k == 'CompoundAssignOperator':
                 base = op[:-1]
